@@ -167,19 +167,33 @@ class ServerApp:
         self.w.fault('handler_' + str(act))
         rec['fault'] = act
         if act == 'raise':
-            raise RuntimeError('handler failure (injected)')
+            raise self._exc(f)
         if act == 'sleep':
             if self.w.impl == 'threaded':
                 K.sim_sleep(f.get('s', 0.25), self.k)
         elif act == 'send':
-            if self.w.impl == 'threaded':
-                self.w.server.send(sid, f.get('data', 'reentrant'))
-            else:
-                asyncio.ensure_future(
-                    self.w.server.send(sid, f.get('data', 'reentrant')))
+            for data in self._send_data(f):
+                if self.w.impl == 'threaded':
+                    self.w.server.send(sid, data)
+                else:
+                    asyncio.ensure_future(self.w.server.send(sid, data))
         elif act == 'disconnect':
             if self.w.impl == 'threaded':
                 self.w.server.disconnect(sid)
+
+    @staticmethod
+    def _exc(f):
+        # (TypeError is the one the server itself catches, to retry a
+        # disconnect handler that takes no reason)
+        cls = {'TypeError': TypeError, 'KeyError': KeyError,
+               'OSError': OSError}.get(f.get('exc'), RuntimeError)
+        return cls('handler failure (injected)')
+
+    @staticmethod
+    def _send_data(f):
+        d = f.get('data', 'reentrant')
+        n = f.get('n', 1)
+        return [d] if n == 1 else ['%s-%d' % (d, i) for i in range(n)]
 
     # -- coroutine handlers --------------------------------------------------
     async def _a_connect(self, sid, environ):
@@ -214,11 +228,12 @@ class ServerApp:
         self.w.fault('handler_' + str(act))
         rec['fault'] = act
         if act == 'raise':
-            raise RuntimeError('handler failure (injected)')
+            raise self._exc(f)
         if act == 'sleep':
             await asyncio.sleep(f.get('s', 0.25))
         elif act == 'send':
-            await self.w.server.send(sid, f.get('data', 'reentrant'))
+            for data in self._send_data(f):
+                await self.w.server.send(sid, data)
         elif act == 'disconnect':
             await self.w.server.disconnect(sid)
 
